@@ -977,6 +977,10 @@ func main() {
 			return callArgIs(repo, bs, "replicate", "TopicSubscribe", 1, "b.id", "storeTopicIsAddress",
 				"the pubsub topic a store subscribes to is named by its address (b.id), not by anything databases may share")
 		}},
+		{"GenLogQuery", func() string {
+			return effectOrder(repo, "stores/eventlogstore/log.go", "query", "logQueryOrder", [][2]string{
+				{"operations", "operation.ParseOperation(e)"}, {"window", "o.read("}})
+		}},
 		{"GenNewPeer", func() string {
 			return callArgIs(repo, bs, "pubSubChanListener", "NewEventNewPeer", 0, "b.Address()", "newPeerEventHasAddress",
 				"the new-peer event a store emits on the shared bus carries the address of that store")
